@@ -38,12 +38,30 @@ def uniq(lst):
         if e[0] not in seen: seen.add(e[0]); out.append(e)
     return out
 quick = uniq(quick); thorough = uniq(thorough)
+
+def sq(ops, lens, ok=True, fail=False, sv=0):
+    o = ([OPS[x] for x in ops] + [-1, -1, -1, -1])[:4]; ls = (list(lens) + [0, 0, 0])[:3]
+    name = '_'.join(x[3:].lower() for x in ops) + '__' + ('x'.join(map(str, lens)) or 'empty') + ('_w0' if sv else '')
+    return (name, '%d, %d, %d, %d, %d, %d, %d, %d, %d, %d' % (o[0], o[1], o[2], o[3], len(lens), ls[0], ls[1], ls[2], (1 if ok else 0) | (2 if fail else 0), sv))
+seq_quick = [
+    sq(['OP_IF', 'OP_1', 'OP_ENDIF'], [1]), sq(['OP_IF', 'OP_1', 'OP_ENDIF'], [2], fail=True, sv=1), sq(['OP_NOTIF', 'OP_2', 'OP_ELSE', 'OP_3'], [1], ok=False, fail=True),
+    sq(['OP_IF', 'OP_ELSE', 'OP_7', 'OP_ENDIF'], [1]), sq(['OP_IF', 'OP_ENDIF'], [], ok=False, fail=True), sq(['OP_NOTIF', 'OP_VERIF', 'OP_ENDIF'], [1], ok=False, fail=True),
+    sq(['OP_IF', 'OP_MUL', 'OP_ENDIF'], [0], ok=False, fail=True), sq(['OP_IF', 'OP_RETURN', 'OP_ENDIF', 'OP_1NEGATE'], [1], fail=True), sq(['OP_ELSE'], [1], ok=False, fail=True),
+    sq(['OP_CHECKLOCKTIMEVERIFY'], [4], fail=True), sq(['OP_CHECKLOCKTIMEVERIFY'], [5], fail=True), sq(['OP_CHECKLOCKTIMEVERIFY'], [], fail=True), sq(['OP_CHECKSEQUENCEVERIFY'], [4], fail=True), sq(['OP_CHECKSEQUENCEVERIFY'], [5], fail=True),
+    sq(['OP_CHECKSIG'], [1, 1], fail=True), sq(['OP_CHECKSIG'], [0, 2], fail=False), sq(['OP_CHECKSIGVERIFY'], [2, 1], fail=True), sq(['OP_CHECKSIG', 'OP_VERIFY'], [1, 1], fail=True), sq(['OP_CHECKSIG'], [1], ok=False, fail=True),
+    sq(['OP_16', 'OP_1NEGATE', 'OP_ADD'], []), sq(['OP_0', 'OP_NOT', 'OP_VERIFY'], []), sq(['OP_DUP', 'OP_SIZE', 'OP_EQUAL'], [1]),
+]
 HARNESSES = [
     H('scriptnum_decode', 'scriptnum.cpp', 'h_decode', link=['script/script.cpp', 'uint256.cpp'], variants=[{'LEN': l} for l in range(0, 7)], shadow=['nofmt'], unwind=12, memunwind=40, timeout=400, objbits=10,
       functions=['CScriptNum::CScriptNum(vector, fRequireMinimal, nMaxNumSize)', 'CScriptNum::set_vch', 'CScriptNum::getint', 'CScriptNum::GetInt64'],
       bounds='all byte strings of length 0..6, both minimal modes, nMaxNumSize 4 and 5'),
     H('scriptnum_encode', 'scriptnum.cpp', 'h_encode', link=['script/script.cpp', 'uint256.cpp'], shadow=['nofmt'], unwind=12, memunwind=40, timeout=600, objbits=10, backends=['default', 'cadical', 'kissat'],
       functions=['CScriptNum::serialize'], bounds='all 64-bit values except INT64_MIN (excluded by the documented contract of serialize)', assumptions=['value != INT64_MIN']),
+    H('evalseq', 'evalseq.cpp', 'h_evalseq', link=['script/interpreter.cpp', 'script/script.cpp', 'script/script_error.cpp', 'primitives/transaction.cpp', 'uint256.cpp', 'hash.cpp', 'crypto/ripemd160.cpp', 'crypto/sha1.cpp', 'crypto/sha256.cpp'],
+      entries=seq_quick, shadow=['nofmt'], unwind=12, memunwind=40, timeout=600, objbits=11,
+      functions=['EvalScript: ConditionStack, OP_IF/NOTIF/ELSE/ENDIF/VERIF, OP_0..OP_16, OP_CHECKLOCKTIMEVERIFY, OP_CHECKSEQUENCEVERIFY, OP_CHECKSIG(VERIFY) via EvalChecksigPreTapscript, FindAndDelete'],
+      stubs=['signature checker = abstract checker with symbolic verdicts (records its arguments)', 'CPubKey/XOnlyPubKey nondeterministic stubs (unreached: no encoding flags)', 'tinyformat -> empty strings'],
+      bounds='%d scripts of <= 4 opcodes; <= 3 stack elements of concrete length <= 5; flags MINIMALDATA, MINIMALIF, CLTV, CSV, NULLFAIL, DISCOURAGE_UPGRADABLE_NOPS symbolic; SigVersion BASE or WITNESS_V0 per entry' % len(seq_quick)),
     H('evalop', 'evalop.cpp', 'h_evalop', link=['script/interpreter.cpp', 'script/script.cpp', 'script/script_error.cpp', 'primitives/transaction.cpp', 'uint256.cpp', 'hash.cpp', 'crypto/ripemd160.cpp', 'crypto/sha1.cpp', 'crypto/sha256.cpp'],
       entries=quick, tentries=thorough, shadow=['nofmt'], unwind=12, memunwind=40, timeout=600, objbits=11,
       functions=['EvalScript (script/interpreter.cpp)', 'CScriptNum ctor/getint/getvch/serialize/IsMinimallyEncoded (script/script.h)', 'CastToBool', 'CScript::GetOp/GetScriptOp', 'stack helpers (stacktop, popstack)', 'std::vector<std::vector<unsigned char>> (libstdc++)'],
